@@ -36,7 +36,7 @@ package desync
 //@ ghost var $done bool
 
 //@ func VerifyIndex
-//@   prop C17
+//@   prop C17 C07
 //@   requires n >= 1
 //@   requires offsetsBounded(idx.Chunks)
 //@   chan in: offsetsBounded(v)
@@ -1990,12 +1990,33 @@ package desync
 //@ func CloneRange(dst, src, srcOffset, srcLength, dstOffset) (err)
 //@   pure
 //@   modifies $fv
+//# the plain copies: positioned at the start of the range, then exactly `length` bytes are copied (a limited reader
+//# feeds the copy), so nothing is written behind the range
 //@ func (s *nullChunkSection) copy(dst, offset, length) (r0, r1, r2)
+//@   prop C01
+//@   safety none
+//@   requires offset < 1<<63 && length < 1<<63
+//@   trusted ensures
 //@   pure
 //@   modifies $fv
+//@   oncall Seek: requires $recv == dst && $arg0 == offset && $arg1 == 0
+//@   oncall LimitReader: requires $arg1 == length
+//@   oncall CopyBuffer: requires $arg0 == dst
+//@   oncall WriteAt: requires false
+//@   oncall Write: requires false
 //@ func (s *fileSeedSegment) copy(dst, src, srcOffset, length, dstOffset) (r0, r1, r2)
+//@   prop C01
+//@   safety none
+//@   requires srcOffset < 1<<63 && dstOffset < 1<<63 && length < 1<<63
+//@   trusted ensures
 //@   pure
 //@   modifies $fv
+//@   oncall Seek#1: requires $recv == dst && $arg0 == dstOffset && $arg1 == 0
+//@   oncall Seek#2: requires $recv == src && $arg0 == srcOffset && $arg1 == 0
+//@   oncall LimitReader: requires $arg0 == src && $arg1 == length
+//@   oncall CopyBuffer: requires $arg0 == dst
+//@   oncall WriteAt: requires false
+//@   oncall Write: requires false
 
 //@ ghost var $m int
 //@ ghost var $e int
@@ -2089,7 +2110,7 @@ package desync
 //# the parallel file chunker is outside the reach of these contracts (see C02); for callers it is a function
 //# that reads a file and returns an index, without touching the caller's data structures
 //@ func IndexFromFile
-//@   prop C07
+//@   prop C07 C02 C06
 //@   safety none
 //@   trusted ensures
 //@   pure
